@@ -5,6 +5,7 @@
 //! Request lines (answer = kept candidates in output order | `panic` | model may say `skip`):
 //!   `cmp <a> <b>`                         answer `<lt|eq|gt> <0|1>` (total_cmp, IEEE `a > b`)
 //!   `topk <d|s> <k> | <items>`            `TopK::new(k)`
+//!   `topk@<isa> <d|s> <k> | <items>`      the private `SimdTopK` kernel with ISA generic/avx2/avx512 (hook)
 //!   `topp <d|s> <pbits> | <items>`        `TopP::new(p).normalize(false)`
 //!   `sort <d|s> | <items>`                `Sort::new()`
 //!   `# toppn <d|s> <pbits> | <items>`     `TopP::new(p).normalize(true)` (oracle-only)
@@ -322,7 +323,9 @@ fn oracle_toppn(pbits: u32, input: &[Item], out: &[Item]) -> Option<String> {
     let min_kept = out.iter().map(|x| logit_of[&x.0]).fold(f64::INFINITY, f64::min);
     let kept: std::collections::HashSet<u32> = ids.iter().copied().collect();
     let max_excl = input.iter().filter(|x| !kept.contains(&x.0)).map(|x| val64(x.1)).fold(f64::NEG_INFINITY, f64::max);
-    if max_excl > min_kept {
+    // (f32 softmax cannot separate logits closer than about one ulp of the largest magnitude)
+    let maxabs = input.iter().map(|x| val64(x.1).abs()).fold(0.0, f64::max);
+    if max_excl > min_kept + 3e-7 * maxabs + 2e-7 {
         return Some(format!("topp-norm:not-highest an excluded logit {max_excl} exceeds a kept one {min_kept}"));
     }
     // count band
@@ -473,6 +476,34 @@ impl Ctx {
             }
         };
         self.emit(&req, &ans, fail, true, n >= 2 && k >= 1);
+    }
+
+    /// The private `SimdTopK` kernel run with an explicitly chosen ISA through the
+    /// `rten_generate::verif::simd_topk_with_isa` hook (same model answer as `topk`).
+    fn topk_isa(&mut self, isa: &str, k: usize, xs: &[Item]) {
+        let m = if is_dense(xs) { "d" } else { "s" };
+        let req = format!("topk@{isa} {m} {k} | {}", show_items(xs));
+        let vals: Vec<f32> = xs.iter().map(|x| f32::from_bits(x.1)).collect();
+        let ids: Vec<u32> = xs.iter().map(|x| x.0).collect();
+        let res = hcommon::catch(|| rten_generate::verif::simd_topk_with_isa(isa, k, &vals, &ids));
+        let (ans, fail) = match res {
+            Ok(None) => return, // ISA not available on this machine
+            Ok(Some(o)) => {
+                let o: Vec<Item> = o.into_iter().map(|(i, v)| (i, v.to_bits())).collect();
+                let f = oracle_topk(k, xs, &o);
+                (show_items(&o), f)
+            }
+            Err(msg) => ("panic".to_string(), Some(format!("panic: {msg}"))),
+        };
+        self.out.bucket(&format!("kind_topk@{isa}"));
+        self.emit(&req, &ans, fail, true, xs.len() >= 2 && k >= 1);
+    }
+
+    fn topk_all_isas(&mut self, k: usize, xs: &[Item]) {
+        self.topk(k, xs);
+        for isa in ["generic", "avx2", "avx512"] {
+            self.topk_isa(isa, k, xs);
+        }
     }
 
     fn topp(&mut self, p: u32, xs: &[Item]) {
@@ -837,7 +868,7 @@ fn main() {
 fn run(args: &Args) {
     let mut rng = Rng::new(args.seed);
     let mut cx = Ctx { out: Out::new(&args.out), prev: vec![] };
-    let scale = if args.thorough { 40 } else { 3 };
+    let scale = if args.thorough { 16 } else { 2 };
 
     // (0) order primitives: total_cmp and `>` on specials and random patterns
     for &a in &SPECIALS {
@@ -891,7 +922,7 @@ fn run(args: &Args) {
             for pos in 0..n {
                 for &(base, hot) in &[(ONE, 0x4000_0000u32), (ONE, QNAN), (N0, P0), (ONE, PINF), (0x4000_0000, NQNAN), (NINF, ONE)] {
                     let xs: Vec<Item> = (0..n).map(|i| (i as u32, if i == pos { hot } else { base })).collect();
-                    cx.topk(k, &xs);
+                    cx.topk_all_isas(k, &xs);
                 }
             }
         }
@@ -918,7 +949,7 @@ fn run(args: &Args) {
         }
         let xs = rand_items(&mut rng);
         let k = rand_k(&mut rng, xs.len());
-        cx.topk(k, &xs);
+        cx.topk_all_isas(k, &xs);
     }
 
     // (4) TopP on dyadic probabilities (exact sums) and on arbitrary inputs (oracle-only / skip)
